@@ -70,6 +70,7 @@ package decimal
 //@   ensures[form,C04,C08] old(z.form) == finite ==> z.form == finite || z.form == inf
 //@   ensures[accrange,C08] 0 - 1 <= z.acc && z.acc <= 1
 //@   ensures[buffer,C18] z.mant.arr == old(z.mant.arr) && z.mant.off == old(z.mant.off) && cap(z.mant) == old(cap(z.mant))
+//@   ensures[len,C08] len(z.mant) <= old(len(z.mant))
 //@   ensures[shape,C08,assumed] z.form == finite ==> mantok(z) && 19*len(z.mant) < z.prec + 19 && (19*len(z.mant) > z.prec ==> z.mant[0] % p10(19*len(z.mant) - z.prec) == 0)
 //@   ensures[rounded,C01,C02,assumed] old(z.form) == finite ==> rounded(z, old(V(z.mant)), old(len(z.mant)), old(z.exp), sbit != 0)
 //@   tags safety C04
@@ -83,6 +84,7 @@ package decimal
 //@   ensures[over,C01,C02,C04]  exp > MaxExp ==> z.form == inf && z.acc == (z.neg ? 0 - 1 : 1) && z.mant == old(z.mant)
 //@   ensures[form,C08] z.form <= 2 && 0 - 1 <= z.acc && z.acc <= 1
 //@   ensures[zero,C02,C04] z.form == zero ==> exp < MinExp && z.acc != 0
+//@   ensures[len,C08] len(z.mant) <= old(len(z.mant))
 //@   ensures[buffer,C18] z.mant.arr == old(z.mant.arr) && z.mant.off == old(z.mant.off) && cap(z.mant) == old(cap(z.mant))
 //@   ensures[shape,C08] z.form == finite ==> mantok(z) && 19*len(z.mant) < z.prec + 19 && (19*len(z.mant) > z.prec ==> z.mant[0] % p10(19*len(z.mant) - z.prec) == 0)
 //@   ensures[rounded,C01,C02] MinExp <= exp && exp <= MaxExp ==> rounded(z, old(V(z.mant)), old(len(z.mant)), exp, sbit != 0)
@@ -105,12 +107,15 @@ package decimal
 // under which the machine-integer digit counts of round() cannot wrap (listed in the
 // evidence as an assumption of every property that goes through uadd/usub).
 //@ define opnd(x) = x != nil && valid(x)
+// an operand whose mantissa may be longer than its precision says (FMA's exact product)
+//@ define opnd_long(x) = x != nil && x.form <= 2 && x.mode <= 5 && 0 - 1 <= x.acc && x.acc <= 1 && (x.form == finite ==> x.prec >= 1 && mantok(x))
+//@ define finop_long(x) = opnd_long(x) && x.form == finite
 //@ define finop(x) = x != nil && valid(x) && x.form == finite
-//@ define gapok(x, y) = (x.exp - 19*len(x.mant)) - (y.exp - 19*len(y.mant)) <= 1000000000 && (y.exp - 19*len(y.mant)) - (x.exp - 19*len(x.mant)) <= 1000000000 && len(x.mant) <= 10000000 && len(y.mant) <= 10000000
+//@ define gapok(x, y) = (x.exp - 19*len(x.mant)) - (y.exp - 19*len(y.mant)) <= 1000000000 && (y.exp - 19*len(y.mant)) - (x.exp - 19*len(x.mant)) <= 1000000000 && len(x.mant) <= 20000000 && len(y.mant) <= 20000000
 //@ define scalars_unchanged(x) = x.exp == old(x.exp) && x.prec == old(x.prec) && x.mode == old(x.mode) && x.acc == old(x.acc) && x.form == old(x.form) && x.neg == old(x.neg) && x.mant == old(x.mant)
 
 //@ func (z *Decimal) uadd(x, y *Decimal)
-//@   requires[wf]    z != nil && z.prec >= 1 && z.mode <= 5 && finop(x) && finop(y) && sep(z, x) && sep(z, y) && gapok(x, y)
+//@   requires[wf]    z != nil && z.prec >= 1 && z.mode <= 5 && finop_long(x) && finop_long(y) && sep(z, x) && sep(z, y) && gapok(x, y)
 //@   modifies z.acc, z.exp, z.form, z.mant, memcap(z.mant)
 //@   ensures[form,C08] (z.form == finite || z.form == zero || z.form == inf) && 0 - 1 <= z.acc && z.acc <= 1
 //@   ensures[underflow,C02,C04] z.form == zero ==> z.acc != 0
@@ -135,7 +140,7 @@ package decimal
 //@   (ex <= ey ==> V(x.mant) == V(y.mant)*p10(ey-ex)) && (ex > ey ==> V(x.mant)*p10(ex-ey) == V(y.mant))
 
 //@ func (z *Decimal) usub(x, y *Decimal)
-//@   requires[wf]    z != nil && z.prec >= 1 && z.mode <= 5 && finop(x) && finop(y) && sep(z, x) && sep(z, y) && gapok(x, y)
+//@   requires[wf]    z != nil && z.prec >= 1 && z.mode <= 5 && finop_long(x) && finop_long(y) && sep(z, x) && sep(z, y) && gapok(x, y)
 //@   requires[order] absgt(x, y) || abseq(x, y)
 //@   modifies z.acc, z.exp, z.form, z.neg, z.mant, memcap(z.mant)
 //@   ensures[form,C08] (z.form == finite || z.form == zero || z.form == inf) && 0 - 1 <= z.acc && z.acc <= 1
@@ -168,6 +173,7 @@ package decimal
 //@   requires[wf]    z != nil && z.prec >= 1 && z.mode <= 5 && finop(x) && finop(y) && sep(z, x) && sep(z, y) && len(x.mant) <= 10000000 && len(y.mant) <= 10000000
 //@   modifies z.acc, z.exp, z.form, z.mant, memcap(z.mant)
 //@   ensures[form,C08] (z.form == finite || z.form == zero || z.form == inf) && 0 - 1 <= z.acc && z.acc <= 1
+//@   ensures[len,C08] len(z.mant) <= old(len(x.mant)) + old(len(y.mant))
 //@   ensures[underflow,C02,C04] z.form == zero ==> z.acc != 0
 //@   ensures[shape,C08] z.form == finite ==> mantok(z) && 19*len(z.mant) < z.prec + 19 && (19*len(z.mant) > z.prec ==> z.mant[0] % p10(19*len(z.mant) - z.prec) == 0)
 //@   ensures[buffer,C18] (z.mant.arr == old(z.mant.arr) && z.mant.off == old(z.mant.off) && cap(z.mant) == old(cap(z.mant))) || fresh(z.mant)
@@ -294,6 +300,8 @@ package decimal
 //@   modifies z.prec, z.acc, z.form, z.exp, z.mant, mem(z.mant)
 //@   ensures[result] result == z
 //@   ensures[prec,C09] z.prec == (prec > MaxPrec ? MaxPrec : prec)
+//@   ensures[buffer,C18] z.mant.arr == old(z.mant.arr) && z.mant.off == old(z.mant.off) && cap(z.mant) == old(cap(z.mant)) && len(z.mant) <= old(len(z.mant))
+//@   ensures[attrs,C09] z.mode == old(z.mode) && z.neg == old(z.neg)
 //@   ensures[zero,C01,C02] prec == 0 && old(z.form) == finite ==> z.form == zero && z.acc == (z.neg ? 1 : 0 - 1)
 //@   ensures[special,C04] old(z.form) != finite ==> z.form == old(z.form) && z.acc == 0
 //@   ensures[valid,C08] valid(z)
@@ -305,7 +313,7 @@ package decimal
 
 //@ func (x *Decimal) ucmp(y *Decimal) int
 //@   pure
-//@   requires[wf] finop(x) && finop(y)
+//@   requires[wf] finop_long(x) && finop_long(y)
 //@   ensures[range,C16] 0 - 1 <= result && result <= 1
 //@   ensures[value,C16,C01,assumed] (result > 0 <==> absgt(x, y)) && (result == 0 <==> abseq(x, y))
 //@   ensures[exp,C16] x.exp < y.exp ==> result == 0 - 1
@@ -330,12 +338,13 @@ package decimal
 // ---------------------------------------------------------------------------
 // Arithmetic
 
+//@ define addop_wf(z, x, y) = z != nil && opnd_long(x) && opnd(y) && (x.form == finite && y.form == zero ==> valid(x)) && sep(z, x) && sep(z, y) && z.mode <= 5 && z.prec <= 1000000000 && x.prec <= 1000000000 && y.prec <= 1000000000 && len(x.mant) <= 20000000 && len(y.mant) <= 10000000
 //@ define binop_wf(z, x, y) = z != nil && opnd(x) && opnd(y) && sep(z, x) && sep(z, y) && z.mode <= 5 && z.prec <= 1000000000 && x.prec <= 1000000000 && y.prec <= 1000000000 && len(x.mant) <= 10000000 && len(y.mant) <= 10000000
 //@ define newprec2(z, x, y) = old(z.prec) == 0 ? max(old(x.prec), old(y.prec)) : old(z.prec)
 //@ define buffer_ok(z) = (z.mant.arr == old(z.mant.arr) && z.mant.off == old(z.mant.off) && cap(z.mant) == old(cap(z.mant))) || fresh(z.mant)
 
 //@ func (z *Decimal) Add(x, y *Decimal) *Decimal
-//@   requires[wf] binop_wf(z, x, y) && (x.form == finite && y.form == finite ==> gapok(x, y))
+//@   requires[wf] addop_wf(z, x, y) && (x.form == finite && y.form == finite ==> gapok(x, y))
 //@   modifies z.prec, z.acc, z.form, z.neg, z.exp, z.mant, memcap(z.mant)
 //@   ensures[result] result == z
 //@   ensures[prec,C09] z.prec == newprec2(z, x, y)
@@ -407,3 +416,122 @@ package decimal
 //@        ((old(x.form) == inf || old(y.form) == zero) ==> z.form == inf && z.acc == 0)
 //@   panics[nan,C04] (old(x.form) == zero && old(y.form) == zero) || (old(x.form) == inf && old(y.form) == inf)
 //@   onpanic[valid,C04,C08] valid(z)
+
+//@ func (z *Decimal) FMA(x, y, u *Decimal) *Decimal
+//@   requires[wf] z != nil && opnd(x) && opnd(y) && opnd(u) && sep(z, x) && sep(z, y) && sep(z, u) && z.mode <= 5 &&
+//@        z.prec <= 1000000000 && x.prec <= 1000000000 && y.prec <= 1000000000 && u.prec <= 1000000000 &&
+//@        len(x.mant) <= 10000000 && len(y.mant) <= 10000000 && len(u.mant) <= 10000000
+//@   requires[range] x.form == finite && y.form == finite && u.form == finite ==>
+//@        MinExp <= x.exp + y.exp - 1 && x.exp + y.exp <= MaxExp &&
+//@        (x.exp + y.exp - 19*len(x.mant) - 19*len(y.mant)) - (u.exp - 19*len(u.mant)) <= 999999000 &&
+//@        (u.exp - 19*len(u.mant)) - (x.exp + y.exp - 19*len(x.mant) - 19*len(y.mant)) <= 999999000
+//@   modifies z.prec, z.acc, z.form, z.neg, z.exp, z.mant, memcap(z.mant)
+//@   ensures[result] result == z
+//@   ensures[prec,C09] z.prec == (old(z.prec) == 0 ? max(max(old(x.prec), old(y.prec)), old(u.prec)) : old(z.prec))
+//@   ensures[operands,C09,C18] (x != z ==> unchanged(x)) && (y != z ==> unchanged(y)) && (u != z ==> unchanged(u))
+//@   ensures[valid,C08] valid(z)
+//@   ensures[infprod,C04] (old(x.form) == inf || old(y.form) == inf) ==> z.form == inf && z.acc == 0 && z.neg == (old(x.neg) != old(y.neg))
+//@   ensures[infu,C04] old(u.form) == inf && old(x.form) != inf && old(y.form) != inf ==> z.form == inf && z.acc == 0 && z.neg == old(u.neg)
+//@   ensures[zeros,C03,C04] (old(x.form) == zero || old(y.form) == zero) && old(u.form) == zero ==> z.form == zero && z.acc == 0 &&
+//@        (z.neg <==> (((old(x.neg) != old(y.neg)) && old(u.neg)) || ((old(x.neg) != old(y.neg)) != old(u.neg) && z.mode == ToNegativeInf)))
+//@   ensures[zeroprod,C04] (old(x.form) == zero || old(y.form) == zero) && old(u.form) == finite ==> z.neg == old(u.neg) && z.form != zero
+//@   ensures[zerou,C03,C04] old(x.form) == finite && old(y.form) == finite && old(u.form) == zero ==> z.neg == (old(x.neg) != old(y.neg))
+//@   panics[nan,C04] (old(x.form) == zero && old(y.form) == inf) || (old(x.form) == inf && old(y.form) == zero) ||
+//@        ((old(x.form) == inf || old(y.form) == inf) && old(u.form) == inf && (old(x.neg) != old(y.neg)) != old(u.neg))
+//@   onpanic[valid,C04,C08] valid(z)
+
+// ---------------------------------------------------------------------------
+// Mantissa / exponent access
+
+//@ func (x *Decimal) MantExp(mant *Decimal) (exp int)
+//@   requires[wf] opnd(x) && (mant != nil ==> sep(mant, x)) && len(x.mant) <= 100000000
+//@   modifies mant.prec, mant.mode, mant.acc, mant.form, mant.neg, mant.exp, mant.mant, memcap(mant.mant)
+//@   ensures[exp,C20] exp == (old(x.form) == finite ? old(x.exp) : 0)
+//@   ensures[mant,C20] mant != nil ==> mant.form == old(x.form) && mant.neg == old(x.neg) && mant.prec == old(x.prec) && mant.mode == old(x.mode) && mant.acc == old(x.acc) &&
+//@        (old(x.form) == finite ==> mant.exp == 0 && V(mant.mant) == old(V(x.mant)) && len(mant.mant) == old(len(x.mant)))
+//@   ensures[operands,C09,C18] mant != x ==> unchanged(x)
+//@   ensures[valid,C08] mant != nil ==> valid(mant)
+
+//@ func (z *Decimal) SetMantExp(mant *Decimal, exp int) *Decimal
+//@   requires[wf] z != nil && opnd(mant) && sep(z, mant) && len(mant.mant) <= 100000000
+//@   split (mant.form == finite && 19*len(mant.mant) > mant.prec ? 19*len(mant.mant) - mant.prec : 0) in 0..18
+//@   hint[entry] mant.form == finite ==> V_low(mant.mant, 0, len(mant.mant))
+//@   hint[entry] mant.form == finite ==> Pdef(len(mant.mant) - 1)
+//@   hint[entry] mant.form == finite ==> V_bounds(mant.mant, 0, len(mant.mant))
+//@   modifies z.prec, z.mode, z.acc, z.form, z.neg, z.exp, z.mant, memcap(z.mant)
+//@   ensures[result] result == z
+//@   ensures[attrs,C09] z.prec == old(mant.prec) && z.mode == old(mant.mode) && z.neg == old(mant.neg)
+//@   ensures[special,C04,C20] old(mant.form) != finite ==> z.form == old(mant.form) && z.acc == old(mant.acc)
+//@   ensures[range,C20,C02] old(mant.form) == finite ==>
+//@        (old(mant.exp) + exp < MinExp ==> z.form == zero && z.acc == (z.neg ? 1 : 0 - 1)) &&
+//@        (old(mant.exp) + exp > MaxExp ==> z.form == inf && z.acc == (z.neg ? 0 - 1 : 1)) &&
+//@        (MinExp <= old(mant.exp) + exp && old(mant.exp) + exp <= MaxExp ==> z.form == finite && z.exp == old(mant.exp) + exp && z.acc == 0 &&
+//@             V(z.mant) == old(V(mant.mant)) && len(z.mant) == old(len(mant.mant)))
+//@   ensures[operands,C09,C18] mant != z ==> unchanged(mant)
+//@   ensures[valid,C08] valid(z)
+
+//@ func (x *Decimal) BitsExp() ([]Word, int32)
+//@   pure
+//@   requires[wf] opnd(x)
+//@   ensures[finite,C20] x.form == finite ==> result0 == x.mant && result1 == x.exp
+//@   ensures[other,C20] x.form != finite ==> len(result0) == 0
+
+//@ func (z *Decimal) setBits64(neg bool, x uint64, exp int64) *Decimal
+//@   requires[wf] z != nil && z.mode <= 5
+//@   modifies z.prec, z.acc, z.form, z.neg, z.exp, z.mant, memcap(z.mant)
+//@   ensures[result] result == z
+//@   ensures[prec,C09] z.prec == (old(z.prec) == 0 ? DefaultDecimalPrec : old(z.prec))
+//@   ensures[sign,C14] z.neg == neg
+//@   ensures[zero,C14,C02] x == 0 ==> z.form == zero && z.acc == 0
+//@   ensures[nonzero,C14] x != 0 ==> z.form != zero || z.acc != 0
+//@   ensures[range,C14,C02] x != 0 ==> (exp > MaxExp ==> z.form == inf && z.acc == (neg ? 0 - 1 : 1)) && (exp < MinExp - 40 ==> z.form == zero && z.acc == (neg ? 1 : 0 - 1))
+//@   ensures[valid,C08] valid(z)
+//@   tags safety C04,C14
+//@   tags support C14,C08
+
+//@ func (z *Decimal) SetInt64(x int64) *Decimal
+//@   requires[wf] z != nil && z.mode <= 5
+//@   modifies z.prec, z.acc, z.form, z.neg, z.exp, z.mant, memcap(z.mant)
+//@   ensures[result] result == z
+//@   ensures[prec,C09] z.prec == (old(z.prec) == 0 ? DefaultDecimalPrec : old(z.prec))
+//@   ensures[sign,C14] z.neg == (x < 0)
+//@   ensures[zero,C14,C02] x == 0 ==> z.form == zero && z.acc == 0
+//@   ensures[valid,C08] valid(z)
+//@   tags safety C04,C14
+
+//@ func (z *Decimal) SetUint64(x uint64) *Decimal
+//@   requires[wf] z != nil && z.mode <= 5
+//@   modifies z.prec, z.acc, z.form, z.neg, z.exp, z.mant, memcap(z.mant)
+//@   ensures[result] result == z
+//@   ensures[prec,C09] z.prec == (old(z.prec) == 0 ? DefaultDecimalPrec : old(z.prec))
+//@   ensures[sign,C14] z.neg == false
+//@   ensures[zero,C14,C02] x == 0 ==> z.form == zero && z.acc == 0
+//@   ensures[valid,C08] valid(z)
+//@   tags safety C04,C14
+
+//@ func NewDecimal(x int64, exp int) *Decimal
+//@   ensures[fresh,C18] result != nil && fresh(result)
+//@   ensures[attrs,C14] result.prec == DefaultDecimalPrec && result.mode == ToNearestEven && result.neg == (x < 0)
+//@   ensures[zero,C14,C02] x == 0 ==> result.form == zero && result.acc == 0
+//@   ensures[range,C14,C02] x != 0 ==> (exp > MaxExp ==> result.form == inf && result.acc == (x < 0 ? 0 - 1 : 1)) && (exp < MinExp - 40 ==> result.form == zero && result.acc == (x < 0 ? 1 : 0 - 1))
+//@   ensures[valid,C08] valid(result)
+//@   tags safety C04,C14
+
+//@ func (z dec) setUint64(x uint64) dec
+//@   modifies memcap(z)
+//@   ensures[where] result_in(result, z)
+//@   ensures[words,C08] wordsok(result) && natnorm(result)
+//@   ensures[value,C14] V(result) == x
+//@   ensures[len] len(result) <= 2
+//@   loop 1 invariant[range] 0 <= i && i <= len(z) && len(z) == 2
+//@   loop 1 invariant[words] wordsok(z[:i])
+//@   loop 1 invariant[value] V(z[:i]) + x*P(i) == old(x)
+//@   loop 1 modifies mem(z)
+//@   loop 1 hint Vdef(z, 0, i-1)
+//@   loop 1 hint Pdef(i-1)
+//@   hint[ret] old(x) >= B ==> V_nonneg(z, 0, len(z))
+//@   hint[ret] Pdef(1)
+
+//@ func clampExp(exp int64) int64
+//@   pure
+//@   ensures[value,C14,C20] result == (exp > 1099511627776 ? 1099511627776 : exp < 0 - 1099511627776 ? 0 - 1099511627776 : exp)
